@@ -300,27 +300,67 @@ def writeSizes (cfg : Nat) (recs : List Rec) : List (Nat × Nat) :=
     (if acc.1.getLast? = some p then acc.1 else acc.1 ++ [p], img)
   ((groups ++ [w.flush.1]).foldl step ([(12, 0)], (headerBytes, []))).1
 
-/-! ## Directory, `FindAofFiles`, start-up recovery, compaction -/
+/-! ## Directory, `FindAofFiles`, start-up recovery, compaction
 
-abbrev Dir := List (String × Bytes)
+File names are kept in parsed form: `parseName` is the name grammar of `FindAofFiles` (`rewrite.aof`, `append.aof.<decimal>`,
+the `.dat` suffix) plus the temporary name of the compaction. Two spellings of one index (`append.aof.1`, `append.aof.01`)
+are identified here (in Go the later one in directory order wins). -/
 
-def Dir.get? (d : Dir) (n : String) : Option Bytes := (d.find? (·.1 == n)).map (·.2)
-def Dir.remove (d : Dir) (n : String) : Dir := d.filter (·.1 != n)
-def Dir.put (d : Dir) (n : String) (b : Bytes) : Dir := d.remove n ++ [(n, b)]
+inductive Base
+  | rewrite               -- rewrite.aof
+  | rewriteTmp            -- rewrite.aof.tmp
+  | append (i : Nat)      -- append.aof.<i>   (index already truncated to uint32)
+  | other (s : String)
+  deriving DecidableEq, Repr
+
+structure FName where
+  base : Base
+  dat : Bool              -- the `.dat` side file of `base`
+  deriving DecidableEq, Repr
+
+abbrev Dir := List (FName × Bytes)
+
+def parseDec (cs : List Char) : Option Nat :=
+  if cs.isEmpty then none
+  else cs.foldl (fun acc c => acc.bind (fun n => if c.isDigit then some (n * 10 + (c.toNat - 48)) else none)) (some 0)
+
+def parseBase (s : String) : Base :=
+  if s == "rewrite.aof" then .rewrite
+  else if s == "rewrite.aof.tmp" then .rewriteTmp
+  else if s.startsWith "append.aof." then
+    match parseDec (s.toList.drop 11) with
+    | some n => if n < 2 ^ 64 then .append (n % 2 ^ 32) else .other s
+    | none => .other s
+  else .other s
+
+def parseName (s : String) : FName :=
+  if s.endsWith ".dat" then ⟨parseBase (String.ofList (s.toList.take (s.length - 4))), true⟩ else ⟨parseBase s, false⟩
+
+def Base.show : Base → String
+  | .rewrite => "rewrite.aof"
+  | .rewriteTmp => "rewrite.aof.tmp"
+  | .append i => "append.aof." ++ toString i
+  | .other s => s
+
+def FName.show (n : FName) : String := n.base.show ++ (if n.dat then ".dat" else "")
+
+def Dir.get? (d : Dir) (n : FName) : Option Bytes := (d.find? (fun f => f.1 = n)).map (·.2)
+def Dir.remove (d : Dir) (n : FName) : Dir := d.filter (fun f => f.1 ≠ n)
+def Dir.put (d : Dir) (n : FName) (b : Bytes) : Dir := d.remove n ++ [(n, b)]
 
 inductive FsOp
-  | openAppend (name : String)          -- `AofFile.Open` in write mode: creates `name` (header) and `name.dat` if missing
-  | append (name : String) (b : Bytes)  -- write(2) on a file opened with O_APPEND
-  | remove (name : String)              -- os.Remove (error ignored)
-  | rename (a b : String)               -- os.Rename (error ignored)
+  | openAppend (base : Base)            -- `AofFile.Open` in write mode: creates the log (header) and its `.dat` if missing
+  | append (name : FName) (b : Bytes)   -- write(2) on a file opened with O_APPEND
+  | remove (name : FName)               -- os.Remove (error ignored)
+  | rename (a b : FName)                -- os.Rename (error ignored)
   deriving DecidableEq, Repr
 
 def applyOp (d : Dir) : FsOp → Dir
   | .openAppend n =>
-    let d1 := d.put n (openAppend ((d.get? n).getD []))
-    match d1.get? (n ++ ".dat") with
+    let d1 := d.put ⟨n, false⟩ (openAppend ((d.get? ⟨n, false⟩).getD []))
+    match d1.get? ⟨n, true⟩ with
     | some _ => d1
-    | none => d1.put (n ++ ".dat") []
+    | none => d1.put ⟨n, true⟩ []
   | .append n b => match d.get? n with
     | some old => d.put n (old ++ b)
     | none => d
@@ -333,75 +373,89 @@ def applyOps (d : Dir) (ops : List FsOp) : Dir := ops.foldl applyOp d
 /-- The directory a crash after the first `i` mutations leaves behind. -/
 def applyPrefix (i : Nat) (ops : List FsOp) (d : Dir) : Dir := applyOps d (ops.take i)
 
-def parseDec (cs : List Char) : Option Nat :=
-  if cs.isEmpty then none
-  else cs.foldl (fun acc c => acc.bind (fun n => if c.isDigit then some (n * 10 + (c.toNat - 48)) else none)) (some 0)
+/-- The files a start-up looks at: `rewrite.aof`, `append.aof.N` and their `.dat` files — nothing else (in particular not
+`rewrite.aof.tmp`). -/
+def relevantName (n : FName) : Bool :=
+  match n.base with
+  | .rewrite => true
+  | .append _ => true
+  | _ => false
 
-/-- `FindAofFiles`' acceptance of a name as `append.aof.<index>` (ParseUint(…, 10, 64), then truncated to uint32). -/
-def appendIndex (name : String) : Option Nat :=
-  if name.startsWith "append.aof." ∧ ¬ name.endsWith ".dat" then
-    match parseDec (name.toList.drop 11) with
-    | some n => if n < 2 ^ 64 then some (n % 2 ^ 32) else none
-    | none => none
-  else none
+def relevant (d : Dir) : Dir := d.filter (fun f => relevantName f.1)
 
-def appendName (i : Nat) : String := "append.aof." ++ toString i
+def appendIndexOf (n : FName) : Option Nat :=
+  match n.base, n.dat with
+  | .append i, false => some i
+  | _, _ => none
 
 /-- `FindAofFiles`: `none` = "append.aof file index error" (a gap between the smallest and the largest index). The
 wrap-around branch (`max - min ≥ 0x7fffffff`) needs more than 2^31 files to succeed and is modelled as an error. -/
-def findAofFiles (d : Dir) : Option (List (Nat × String) × Bool) :=
-  let idx := d.filterMap (fun f => (appendIndex f.1).map (fun i => (i, f.1)))
-  let hasRewrite := d.any (·.1 == "rewrite.aof")
+def findAofFiles (d : Dir) : Option (List Nat × Bool) :=
+  let idx := d.filterMap (fun f => appendIndexOf f.1)
+  let hasRewrite := d.any (fun f => f.1 = ⟨.rewrite, false⟩)
   match idx with
   | [] => some ([], hasRewrite)
   | _ =>
-    let mn := idx.foldl (fun a p => min a p.1) (2 ^ 32 - 1)
-    let mx := idx.foldl (fun a p => max a p.1) 0
+    let mn := idx.foldl min (2 ^ 32 - 1)
+    let mx := idx.foldl max 0
     if mx - mn ≥ 0x7fffffff then none
     else
       let want := (List.range (mx - mn + 1)).map (· + mn)
-      let found := want.map (fun i => (idx.reverse.find? (·.1 == i)))
-      if found.all Option.isSome then some (found.filterMap id, hasRewrite) else none
+      if want.all (fun i => idx.contains i) then some (want, hasRewrite) else none
 
-def fileImg (d : Dir) (n : String) : FileImg := ⟨(d.get? n).getD [], d.get? (n ++ ".dat")⟩
+def fileImg (d : Dir) (b : Base) : FileImg := ⟨(d.get? ⟨b, false⟩).getD [], d.get? ⟨b, true⟩⟩
 
-/-- Start-up (`LoadAndInit`): `none` = start-up error; else the records handed to the engine, in order. -/
-def recoverDir (cfg : Nat) (now : Int) (d : Dir) : Option (List Rec) :=
+def recoverRelevant (cfg : Nat) (now : Int) (d : Dir) : Option (List Rec) :=
   match findAofFiles d with
   | none => none
   | some (apps, hasRw) =>
-    let names := (if hasRw then ["rewrite.aof"] else []) ++ apps.map (·.2)
+    let names := (if hasRw then [Base.rewrite] else []) ++ apps.map Base.append
     match loadFiles cfg now (names.map (fileImg d)) with
     | (rs, true) => some rs
     | (_, false) => none
 
+/-- Start-up (`LoadAndInit`): `none` = start-up error; else the records handed to the engine, in order. -/
+def recoverDir (cfg : Nat) (now : Int) (d : Dir) : Option (List Rec) := recoverRelevant cfg now (relevant d)
+
 /-- `findRewriteAofFiles`: rewrite.aof, then every append file older than the current one. -/
-def rewriteInputs (d : Dir) (cur : Nat) : Option (List String) :=
+def rewriteInputs (d : Dir) (cur : Nat) : Option (List Base) :=
   match findAofFiles d with
   | none => none
   | some (apps, hasRw) =>
-    some ((if hasRw then ["rewrite.aof"] else []) ++
-      (apps.filter (fun p => ¬ (p.1 ≥ cur ∧ p.1 - cur < 0x7fffffff))).map (·.2))
+    some ((if hasRw then [Base.rewrite] else []) ++
+      (apps.filter (fun i => ¬ (i ≥ cur ∧ i - cur < 0x7fffffff))).map Base.append)
 
 /-- The rewrite callback sets the REWRITED bit in the record (`aofLock.buf[55] |= 1`). -/
 def markRewritten (r : Rec) : Rec :=
   ⟨overlay r.buf 55 [((byteAt r.buf 55) ||| 1).toUInt8], r.data⟩
 
-/-- The ordered file-system mutations of one compaction (`rewriteAofFiles` with the current append index `cur` already
-rotated): open `rewrite.aof.tmp` in append mode, write the kept records (value frames after the records, as `Flush` does),
-then `clearRewriteAofFiles`: for each input remove it and its `.dat`; rename tmp → rewrite.aof; rename tmp.dat → rewrite.aof.dat.
-`keep` abstracts `LockDB.HasLock` (is the hold this record describes still there, with equal terms and value). -/
+def tmpLog : FName := ⟨.rewriteTmp, false⟩
+def tmpDat : FName := ⟨.rewriteTmp, true⟩
+
+/-- What the compaction keeps: the records of the inputs (as a start-up at `now` would load them) for which `keep` holds —
+`keep` abstracts `LockDB.HasLock` (the hold this record describes is still there, with equal terms and value). -/
+def keptRecords (cfg : Nat) (now : Int) (keep : Rec → Bool) (d : Dir) (inputs : List Base) : List Rec :=
+  ((loadFiles cfg now (inputs.map (fileImg d))).1.filter keep).map markRewritten
+
+/-- First half (`loadRewriteAofFiles`): open `rewrite.aof.tmp` in append mode — an existing one, e.g. left by a crashed
+compaction, is kept and appended to —, write the kept records, then their value frames (`Flush`: records first). -/
+def writeSteps (kept : List Rec) : List FsOp :=
+  [FsOp.openAppend .rewriteTmp] ++
+  (if kept.isEmpty then [] else [FsOp.append tmpLog (encodeRecs kept)]) ++
+  (if (encodeData kept).isEmpty then [] else [FsOp.append tmpDat (encodeData kept)])
+
+/-- Second half (`clearRewriteAofFiles`, aof.go 2091–2109): remove every input and its `.dat`, THEN rename the tmp files. -/
+def clearSteps (inputs : List Base) : List FsOp :=
+  inputs.flatMap (fun n => [FsOp.remove ⟨n, false⟩, FsOp.remove ⟨n, true⟩]) ++
+  [FsOp.rename tmpLog ⟨.rewrite, false⟩, FsOp.rename tmpDat ⟨.rewrite, true⟩]
+
+/-- The ordered file-system mutations of one compaction (`rewriteAofFiles`; `cur` = index of the current append file, already
+rotated by `RewriteAofFile`). -/
 def compactionSteps (cfg : Nat) (now : Int) (keep : Rec → Bool) (cur : Nat) (d : Dir) : List FsOp :=
-  match rewriteInputs d cur with
+  match rewriteInputs (relevant d) cur with
   | none => []
   | some [] => []
-  | some inputs =>
-    let kept := ((loadFiles cfg now (inputs.map (fileImg d))).1.filter keep).map markRewritten
-    [FsOp.openAppend "rewrite.aof.tmp"] ++
-    (if kept.isEmpty then [] else [FsOp.append "rewrite.aof.tmp" (encodeRecs kept)]) ++
-    (if (encodeData kept).isEmpty then [] else [FsOp.append "rewrite.aof.tmp.dat" (encodeData kept)]) ++
-    inputs.flatMap (fun n => [FsOp.remove n, FsOp.remove (n ++ ".dat")]) ++
-    [FsOp.rename "rewrite.aof.tmp" "rewrite.aof", FsOp.rename "rewrite.aof.tmp.dat" "rewrite.aof.dat"]
+  | some inputs => writeSteps (keptRecords cfg now keep d inputs) ++ clearSteps inputs
 
 /-! ## The two deadline ↔ remaining-lifetime conversions (C07, arithmetic part)
 
